@@ -15,7 +15,7 @@ from typing import Any, Dict, List, Optional, Set, Tuple
 
 from ..model import FuncInfo, ClassInfo, iter_own_nodes
 from ..report import AnalysisError
-from ..template import Evaluator, TObj, TStr, Sym, lit, Lit, FqnS, TRUE, FALSE
+from ..template import Evaluator, TObj, TStr, Sym, lit, Lit, Hole, FqnS, TRUE, FALSE
 from ..cxxlex import lex, toks_text, tok_text
 from ..embedded_cxx import extract_headers, Scratch, clang_check, first_error, render
 from .shared import SUPPORT_MODULES, alpha_text, expand_aliases
@@ -66,63 +66,102 @@ def _closure(ctx):
         run.error('C06.closure', b.module.name, 'Builder', '_create_*', 'Builder._create_headerfile/_create_sourcefile vanished')
         return
 
-    def include_items(m: FuncInfo) -> List[ast.expr]:
-        items: List[ast.expr] = []
-        lists: Dict[str, List[ast.expr]] = {}
-        for n in iter_own_nodes(m.node):
-            if isinstance(n, ast.Assign) and isinstance(n.targets[0], ast.Name) and isinstance(n.value, ast.List):
-                lists[n.targets[0].id] = list(n.value.elts)
-        for n in iter_own_nodes(m.node):
-            if isinstance(n, ast.Call) and isinstance(n.func, ast.Attribute) and n.func.attr in ('extend', 'append') \
-                    and isinstance(n.func.value, ast.Name) and n.func.value.id in lists and n.args:
-                a = n.args[0]
-                lists[n.func.value.id].extend(a.elts if isinstance(a, ast.List) else [a])
-        for n in iter_own_nodes(m.node):
-            if isinstance(n, ast.Call) and getattr(n.func, 'attr', getattr(n.func, 'id', '')) == 'ProjectIncludes' and n.args:
-                a = n.args[0]
-                if isinstance(a, ast.List):
-                    items.extend(a.elts)
-                elif isinstance(a, ast.Name) and a.id in lists:
-                    items.extend(lists[a.id])
-                else:
-                    raise AnalysisError(f'{m.qualname}: ProjectIncludes argument `{ast.unparse(a)}` is not a literal list')
-        return items
+    # The quoted includes and the file names, read off the E4 templates of the two generated files (so it does not matter
+    # how the include list is assembled, whether the recipe is a member or a parameter, or where the extensions are spelled)
+    from .c20 import variants
+    ev = Evaluator(prog, ctx.cg)
+    cpp_cls = prog.cls('adv_shell.common', 'CppElements')
+    fields: Dict[str, Any] = {}
+    for k, (ann, _d, o) in prog.class_fields(cpp_cls).items():
+        fields[k] = Sym('cpp', (k,), prog.ann_to_type(o.module, ann, o))
+    fields['namespace'] = ev.construct(prog.cls('cpp_gen', 'Namespace'), [('nsids', ('My', 'Ns'))], {}, 1)
+    fields['struct'] = ev.construct(prog.cls('cpp_gen', 'Struct'), [lit('Shell')], {}, 1)
+    rec = TObj(prog.cls('adv_shell.common', 'Recipe'),
+               {'configuration': Sym('cfg', (), ('cls', 'dznpy.adv_shell.common.Configuration')),
+                'dzn_elements': Sym('dzn'), 'cpp_elements': TObj(cpp_cls, fields)})
+    selfv = TObj(b, {'_recipe': rec})
 
-    def classify(e: ast.expr) -> str:
-        if isinstance(e, ast.JoinedStr):
-            holes = [ast.unparse(v.value) for v in e.values if isinstance(v, ast.FormattedValue)]
-            lits = ''.join(v.value for v in e.values if isinstance(v, ast.Constant))
-            if len(holes) == 1:
-                h = holes[0]
-                if h.endswith('orig_file_basename') and lits == '.hh':
-                    return 'model header'
-                if h.endswith('target_file_basename') and lits == '.hh':
-                    return 'shell header'
-                m = re.match(r'.*support_files\.(\w+)\.filename$', h)
-                if m and lits == '' and m.group(1) in sf_fields:
-                    return f'support file {m.group(1)}'
-        return f'?{ast.unparse(e)[:50]}'
+    def classify_parts(parts) -> str:
+        holes = [p_ for p_ in parts if isinstance(p_, Hole)]
+        lits = ''.join(p_.text for p_ in parts if isinstance(p_, Lit))
+        if len(holes) == 1 and len(holes) + sum(isinstance(p_, Lit) for p_ in parts) == len(parts):
+            path = holes[0].sym.path
+            if path[-1:] == ('orig_file_basename',) and lits == '.hh':
+                return 'model header'
+            if path[-1:] == ('target_file_basename',) and lits == '.hh':
+                return 'shell header'
+            if len(path) >= 3 and path[-3] == 'support_files' and path[-1] == 'filename' and lits == '' and path[-2] in sf_fields:
+                return f'support file {path[-2]}'
+        return '?' + ''.join(getattr(p_, 'text', '{..}') for p_ in parts)[:50]
 
     n = 0
-    for m, allowed in ((hdr, ('model header', 'support file')), (src, ('shell header',))):
-        for e in include_items(m):
-            n += 1
-            c = classify(e)
-            ok = c.startswith(allowed)
-            run.add('C06.closure', m.module.name, m.qualname, e, ok,
-                    f'quoted include of the {c}' if ok else
-                    f'quoted include `{ast.unparse(e)[:60]}` is neither the model\'s own header nor a returned file', node=e)
-    # shell header file name == what the source includes
     names = []
-    for m in (hdr, src):
-        for c in iter_own_nodes(m.node):
-            if isinstance(c, ast.Call) and getattr(c.func, 'id', '') == 'GeneratedContent':
-                kw = {k.arg: k.value for k in c.keywords}
-                names.append(ast.unparse(expand_aliases(m, kw.get('filename', c.args[0] if c.args else ast.Constant(value='')))))
-    base_ = "self._recipe.cpp_elements.target_file_basename"
-    ok = len(names) == 2 and names[0] == "f'{%s}.hh'" % base_ and names[1] == "f'{%s}.cc'" % base_
-    run.add('C06.closure', hdr.module.name, 'Builder', f'file names {names}', ok,
-            'header and source are named <target>.hh / <target>.cc' if ok else f'unexpected file names {names}')
+    for m, allowed in ((hdr, ('model header', 'support file')), (src, ('shell header',))):
+        r = ev.call_function(m, [], _recipe_kwargs(prog, m, rec), 0, self_val=selfv)
+        contents = r.fields.get('contents') if isinstance(r, TObj) else None
+        fname = r.fields.get('filename') if isinstance(r, TObj) else None
+        if not isinstance(contents, TStr) or not isinstance(fname, TStr):
+            run.error('C06.closure', m.module.name, m.qualname, 'generated file', 'the method does not evaluate to file name and contents')
+            continue
+        names.append(fname)
+        seen_inc = set()
+
+        def includes_of(t: TStr, out: list):
+            """part lists between `#include "` and the closing quote, anywhere in the template (alternatives / repetitions
+            are searched one by one; an include does not span them)"""
+            cur = None
+            for p_ in t.parts:
+                if isinstance(p_, Lit):
+                    text = p_.text
+                    while text:
+                        if cur is None:
+                            k = text.find('#include "')
+                            if k < 0:
+                                break
+                            text = text[k + len('#include "'):]
+                            cur = []
+                        else:
+                            k = text.find('"')
+                            if k < 0:
+                                cur.append(Lit(text))
+                                break
+                            if text[:k]:
+                                cur.append(Lit(text[:k]))
+                            out.append(cur)
+                            cur = None
+                            text = text[k + 1:]
+                elif cur is not None:
+                    cur.append(p_)
+                elif hasattr(p_, 'a') and hasattr(p_, 'b') and isinstance(getattr(p_, 'a'), TStr):
+                    includes_of(p_.a, out)
+                    includes_of(p_.b, out)
+                elif hasattr(p_, 'elem') and isinstance(getattr(p_, 'elem'), TStr):
+                    includes_of(p_.elem, out)
+                elif hasattr(p_, 'body') and isinstance(getattr(p_, 'body'), TStr):
+                    includes_of(p_.body, out)
+        found: list = []
+        includes_of(contents, found)
+        for parts in found:
+            c = classify_parts(parts)
+            if c in seen_inc:
+                continue
+            seen_inc.add(c)
+            n += 1
+            ok = c.startswith(allowed)
+            run.add('C06.closure', m.module.name, m.qualname, f'#include "{c.lstrip("?")}"', ok,
+                    f'quoted include of the {c}' if ok else
+                    f'quoted include `{c.lstrip("?")}` is neither the model\'s own header nor a returned file')
+    # shell header file name == what the source includes
+
+    def name_kind(t: TStr) -> str:
+        ps = t.parts
+        if len(ps) == 2 and isinstance(ps[0], Hole) and ps[0].sym.path[-1:] == ('target_file_basename',) and isinstance(ps[1], Lit):
+            return ps[1].text
+        return '?'
+    kinds = [name_kind(t) for t in names]
+    ok = kinds == ['.hh', '.cc']
+    run.add('C06.closure', hdr.module.name, 'Builder', f'file names <target>{kinds}', ok,
+            'header and source are named <target>.hh / <target>.cc' if ok else f'unexpected file names {[repr(t)[:40] for t in names]}')
     if n < 4:
         run.error('C06.closure', hdr.module.name, 'Builder', 'includes', f'only {n} quoted includes recognised (5 confirmed)')
     # inside the support headers (two prefixes): every quoted include is one of the six returned file names
@@ -281,6 +320,26 @@ def _rooted(ctx):
     run.floor('C06.rooted', 12)
 
 
+def _recipe_kwargs(prog, m: FuncInfo, rec: TObj) -> Dict[str, Any]:
+    """A generator method may read the recipe from `self` or take it (or parts of it) as parameters: bind the parameters
+    by their annotated type."""
+    out: Dict[str, Any] = {}
+    for a in m.params():
+        if a.arg in ('self', 'cls') or a.annotation is None:
+            continue
+        t = prog.ann_to_type(m.module, a.annotation, m.cls)
+        name = t[1].split('.')[-1] if t[0] == 'cls' else ''
+        if name == 'Recipe':
+            out[a.arg] = rec
+        elif name == 'CppElements':
+            out[a.arg] = rec.fields['cpp_elements']
+        elif name == 'Configuration':
+            out[a.arg] = rec.fields['configuration']
+        elif name == 'DznElements':
+            out[a.arg] = rec.fields['dzn_elements']
+    return out
+
+
 def _frames(ctx) -> Dict[Tuple[str, bool], TStr]:
     """Shell header / source frames evaluated with an empty and a non-empty encapsulee scope."""
     prog = ctx.prog
@@ -300,7 +359,7 @@ def _frames(ctx) -> Dict[Tuple[str, bool], TStr]:
                     'dzn_elements': Sym('dzn'), 'cpp_elements': TObj(cpp_cls, fields)})
         selfv = TObj(b, {'_recipe': rec})
         for m in ('_create_headerfile', '_create_sourcefile'):
-            r = ev.call_function(b.methods[m], [], {}, 0, self_val=selfv)
+            r = ev.call_function(b.methods[m], [], _recipe_kwargs(prog, b.methods[m], rec), 0, self_val=selfv)
             c = r.fields.get('contents') if isinstance(r, TObj) else None
             if not isinstance(c, TStr):
                 raise AnalysisError(f'Builder.{m} does not evaluate to file contents')
